@@ -1,5 +1,5 @@
 /- C12 — path decoding and normalisation match the documented semantics. -/
-import HtpModel.Lemmas.Decode
+import HtpModel.Lemmas.Normalize
 
 namespace Htp.C12
 open Htp.Decode Htp.Gen
@@ -22,5 +22,23 @@ theorem C12_stage_bounds (cfg : Gen.DecoderCfg) (input : Bytes) (flags : Nat) (s
     (utf8DecodePath cfg input flags status).1.length ≤ input.length ∧
     (normalizePath input).length ≤ input.length :=
   ⟨decodePath_len .., urldecodeEx_len .., utf8DecodePath_len .., normalizePath_len _⟩
+
+/-- **C12 (no dot segments)**: for every raw path and every decoder configuration, no segment of the normalised path (the pieces
+    between slashes) is "." or "..". -/
+theorem C12_no_dot_segments (cfg : Gen.DecoderCfg) (path : Bytes) (flags : Nat) (status : Int) :
+    DotFree (pipeline cfg path flags status).1 := by
+  unfold pipeline
+  simp only
+  split <;> exact normalizePath_dotFree _
+
+/-- the dot-segment remover alone, and what "segment" means: `segs` splits on '/' -/
+theorem C12_normalize_no_dot_segments (input : Bytes) : ∀ s ∈ segs (normalizePath input), s ≠ [0x2e] ∧ s ≠ [0x2e, 0x2e] := by
+  intro s hs
+  have := normalizePath_dotFree input s hs
+  unfold isDotSeg at this
+  simp only [Bool.or_eq_false_iff, beq_eq_false_iff_ne, ne_eq] at this
+  exact this
+
+example : normalizePath (b!"/a/./b/../c/.") = (b!"/a/c") ∧ segs (b!"/a/c") = [[], (b!"a"), (b!"c")] := by decide
 
 end Htp.C12
